@@ -88,6 +88,14 @@ func (p *Path) callMarker(th *thread, caller *frame, pos token.Pos, mc *markerCa
 		for i := range ct {
 			ct[i] = Var(fmt.Sprintf("ct%d_%d", p.sealSeq, i), 8)
 		}
+		// ideal model: independently produced ciphertexts never coincide (a collision of two 96-bit random nonces
+		// and 128-bit tags is the only way for them to)
+		for _, prev := range p.sealsT {
+			if len(prev.ct) == len(ct) {
+				p.addPC(Not(termsEq(prev.ct, ct)))
+			}
+		}
+		p.setModel(nil)
 		p.sealsT = append(p.sealsT, &sealRecT{key: key, nonce: nonce, pt: pt, ad: ad, ct: ct})
 		p.note("stub: AES-GCM = ideal AEAD (Seal: fresh ciphertext of len+16 recorded with key/nonce/plaintext/ad; Open: succeeds iff all match a record" + map[bool]string{true: ", or in tamper mode with an arbitrary plaintext)", false: ")"}[p.aeadTamper])
 		dst := bytesOf(args[1])
